@@ -1,1 +1,2 @@
 pub mod uni;
+pub mod ros;
